@@ -112,6 +112,25 @@ def gen_socket_scenarios(rnd: random.Random, count, max_r=6, random_payload=Fals
     return out
 
 
+def gen_stall_scenarios(rnd: random.Random, rounds=1):
+    """Multi-MB records (request 1 is echoed, so both directions) in flight while an event loop stands still for 0.3 s:
+    srv_read   the server has read the header of the big request; the handler of ANOTHER request (2) then blocks the
+               server's loop (time.sleep inside the coroutine)
+    srv_write  the server has begun to write the big response; the handler of request 2 then blocks the server's loop
+    cli_write  the client has begun to write the big request; a blocking callback then stalls the client's loop
+    cli_read   the client has read the header of the big response; a blocking callback then stalls the client's loop"""
+    out = []
+    for _ in range(rounds):
+        for kind in ('srv_read', 'srv_write', 'cli_write', 'cli_read'):
+            for K in (1, 2):
+                cls = ['big', 'small', rnd.choice(['small', 'header', 'newline', 'nested', 'raises', 'big'])]
+                out.append({'kind': 'socket', 'K': K, 'B': rnd.choice([1, 2, 3]), 'PC': 4, 'cls': cls, 'stream': [],
+                            'order': [1, 2, 3], 'gated': False, 'delays': [0, 0, 0], 'start': [0, 0, 0],
+                            'seed': rnd.randrange(1 << 30), 'random_payload': False, 'bound': 40.0,
+                            'stall': {'kind': kind, 'big': 1, 'blocker': 2, 'seconds': 0.3}})
+    return out
+
+
 def gen_pipe_scenarios(rnd: random.Random, count):
     out = []
     kinds = ['small', 'small', 'empty', 'newline', 'nested', 'over', 'over', 'big']
@@ -133,7 +152,8 @@ def pipe_header(sc):
 # ---------------------------------------------------------------------------------------------------------------
 # socket: instrumentation (installed once per runner process)
 
-_ctx = {'ev': None, 'srv_thread': None, 'id2r': {}, 'small': {}, 'writers': {}, 'conn_of': {}, 'lock': threading.Lock()}
+_ctx = {'ev': None, 'srv_thread': None, 'id2r': {}, 'small': {}, 'writers': {}, 'conn_of': {}, 'lock': threading.Lock(),
+        'stall': None, 'read_errors': []}
 _installed = False
 
 
@@ -169,6 +189,37 @@ def _install():
 
     orig_write, orig_read = S.write_record, S.read_record
 
+    def stall_due(kind, r=None):
+        """a stall scenario waits for exactly this moment (once): a multi-MB record is about to be written / its payload
+        is about to be read on the named side"""
+        stl = _ctx['stall']
+        if stl is None or stl['fired'] or stl['kind'] != kind or (r is not None and r != stl['big']):
+            return False
+        stl['fired'] = True
+        return True
+
+    def stall_client_loop():
+        # a blocking callback in the client's event loop: runs in the next iteration, i.e. while the record is half way
+        import asyncio
+        asyncio.get_running_loop().call_soon(time.sleep, _ctx['stall']['seconds'])
+
+    class ReaderProxy:
+        """stands in for the StreamReader inside read_record: tells when the payload read of a multi-MB record begins"""
+
+        def __init__(self, reader, side):
+            self._r, self._side = reader, side
+
+        def readuntil(self, sep=b'\n'):
+            return self._r.readuntil(sep)
+
+        async def readexactly(self, n):
+            if n >= (1 << 20):
+                if self._side == 'server' and stall_due('srv_read'):
+                    _ctx['stall']['release_blocker']()  # another request's handler now blocks the server's loop
+                elif self._side == 'client' and stall_due('cli_read'):
+                    stall_client_loop()
+            return await self._r.readexactly(n)
+
     async def write_record(writer, request_id, data, *, encoder='pickle'):
         if _ctx['ev'] is not None:
             if isinstance(request_id, int):  # client side: data = (path, payload)
@@ -180,15 +231,29 @@ def _install():
                     _ctx['id2r'][str(request_id)] = r  # the id as it goes on the wire
                     _emit('Take', r=r, c=c)
                     _emit('Write', r=r, c=c, id=_small_id(request_id))
+                    if stall_due('cli_write', r):
+                        stall_client_loop()
             else:  # server side: the id as read from the request header
                 r = _ctx['id2r'].get(request_id)
                 if r is not None:
                     _emit('Resp', r=r)
+                    if stall_due('srv_write', r):
+                        _ctx['stall']['release_blocker']()
         return await orig_write(writer, request_id, data, encoder=encoder)
 
     async def read_record(reader, *, timeout=None):
-        rid, data = await orig_read(reader, timeout=timeout)
-        if _ctx['ev'] is not None and threading.get_ident() == _ctx['srv_thread']:
+        server_side = threading.get_ident() == _ctx['srv_thread']
+        # always through the proxy: a call that began before the scenario was armed may be the one that reads the big record
+        reader = ReaderProxy(reader, 'server' if server_side else 'client')
+        try:
+            rid, data = await orig_read(reader, timeout=timeout)
+        except (TimeoutError, EOFError):  # nothing to read at the moment / connection closed: the callers handle these
+            raise
+        except Exception as e:  # noqa: BLE001 - a record could not be parsed: the stream is out of step
+            if _ctx['ev'] is not None:
+                _ctx['read_errors'].append(('server' if server_side else 'client') + ': ' + repr(e)[:200])
+            raise
+        if _ctx['ev'] is not None and server_side:
             try:
                 r = _req_of(data[0], data[1])
             except Exception:  # noqa: BLE001
@@ -255,7 +320,14 @@ def run_socket(sc):
                 payloads[r] = rp[r - 1]
     sent = {r: ((r, payloads[r]) if r in stream else payloads[r]) for r in reqs}
     ev = []
-    _ctx.update(ev=None, id2r={}, small={}, writers={}, conn_of={})
+    _ctx.update(ev=None, id2r={}, small={}, writers={}, conn_of={}, stall=None, read_errors=[])
+    stall = dict(sc['stall'], fired=False) if sc.get('stall') else None
+    bound = float(sc.get('bound', SCENARIO_BOUND))
+    if stall:
+        gated_reqs = {'srv_read': {stall['blocker']}, 'srv_write': {stall['big'], stall['blocker']}}.get(stall['kind'], set())
+    else:
+        gated_reqs = set(reqs) if sc['gated'] else set()
+    go = {r: threading.Event() for r in reqs}  # caller r may call request()
     tmpd = tempfile.mkdtemp(prefix='vsm')
     path = os.path.join(tmpd, 's')
     state = {'started': [], 'finished': set(), 'last_start': time.monotonic(), 'gates': {}, 'loop': None}
@@ -274,10 +346,12 @@ def run_socket(sc):
                 state['started'].append(r)
                 state['last_start'] = time.monotonic()
                 cond.notify_all()
-            if sc['gated']:
+            if r in gated_reqs:
                 await gate.wait()
             elif sc['delays'][r - 1]:
                 await asyncio.sleep(sc['delays'][r - 1] / 1000.0)
+            if stall and r == stall['blocker'] and stall['kind'] in ('srv_read', 'srv_write'):
+                time.sleep(stall['seconds'])  # a handler that does not yield: the server's only loop stands still
             _emit('HFin', r=r)
             with cond:
                 state['finished'].add(r)
@@ -307,7 +381,7 @@ def run_socket(sc):
 
     st = threading.Thread(target=serve, name='verif-socket-server', daemon=True)
     st.start()
-    deadline = time.monotonic() + SCENARIO_BOUND
+    deadline = time.monotonic() + bound
     client = S.SocketClient(path=path, num_connections=sc['K'], backlog=sc['PC'])
     client._active_requests = _ActiveDict()
     problems = []
@@ -326,10 +400,11 @@ def run_socket(sc):
         return bool(ok)
 
     def caller(r):
+        go[r].wait(bound)
         if sc['start'][r - 1]:
             time.sleep(sc['start'][r - 1] / 1000.0)
         try:
-            y = client.request(f'/r{r}', sent[r], response_timeout=SCENARIO_BOUND)
+            y = client.request(f'/r{r}', sent[r], response_timeout=bound)
             is_exc = False
         except BaseException as e:  # noqa: BLE001
             y, is_exc = e, True
@@ -367,17 +442,68 @@ def run_socket(sc):
                 while r not in state['finished'] and time.monotonic() < deadline:
                     cond.wait(0.05)
 
+    def set_gate(r):
+        # runs in the server's loop thread
+        state['gates'].setdefault(r, asyncio.Event()).set()
+
+    def director():
+        """stall scenarios: bring the requests into the position in which the stall is to hit"""
+        big, blocker = stall['big'], stall['blocker']
+        rest = [r for r in reqs if r not in (big, blocker)]
+
+        def wait_started(r):
+            with cond:
+                while r not in state['started'] and time.monotonic() < deadline:
+                    cond.wait(0.05)
+
+        def wait_fired(limit=5.0):
+            t0 = time.monotonic()
+            while not stall['fired'] and time.monotonic() - t0 < limit and time.monotonic() < deadline:
+                time.sleep(0.005)
+
+        def release(r):
+            state['loop'].call_soon_threadsafe(set_gate, r)
+
+        if stall['kind'] == 'srv_read':
+            go[blocker].set()
+            wait_started(blocker)  # its handler waits at the gate
+            for r in [big] + rest:
+                go[r].set()
+            wait_fired()  # the payload read of the big request has begun and the gate was opened from there
+            release(blocker)  # (safety: never leave the blocker waiting)
+        elif stall['kind'] == 'srv_write':
+            go[big].set()
+            wait_started(big)
+            go[blocker].set()
+            wait_started(blocker)
+            for r in rest:
+                go[r].set()
+            release(big)  # its big response is written next; the write opens the blocker's gate
+            wait_fired()
+            release(blocker)
+        else:
+            for r in [blocker] + rest + [big]:
+                go[r].set()
+
     status, detail = 'ok', None
     threads = []
     try:
         client.__enter__()
         client._pending_requests._verif_pending = True
+        if stall:
+            stall['release_blocker'] = lambda: set_gate(stall['blocker'])
+            _ctx['stall'] = stall
+        else:
+            for e in go.values():
+                e.set()
         _ctx['ev'] = ev
         threads = [threading.Thread(target=caller, args=(r,), name=f'verif-caller-{r}', daemon=True)
                    for r in reqs if r not in stream]
         if stream:
             threads.append(threading.Thread(target=streamer, name='verif-streamer', daemon=True))
-        if sc['gated']:
+        if stall:
+            threads.append(threading.Thread(target=director, name='verif-director', daemon=True))
+        elif sc['gated']:
             threads.append(threading.Thread(target=controller, name='verif-controller', daemon=True))
         for t in threads:
             t.start()
@@ -392,6 +518,8 @@ def run_socket(sc):
                 died = 'client loop ended: ' + repr(client._tasks[0].exception())
             elif srv_err or not st.is_alive():
                 died = 'server ended: ' + repr(srv_err)
+            elif _ctx['read_errors']:
+                died = 'a record could not be parsed, connection out of step: ' + '; '.join(_ctx['read_errors'][:3])
             if died:
                 time.sleep(0.3)
                 break
@@ -411,6 +539,7 @@ def run_socket(sc):
         status, detail = 'error', traceback.format_exc()[-2000:]
         del e
     _ctx['ev'] = None
+    _ctx['stall'] = None
     # tear down (not part of the property): ask the server to shut down, leave the client
     if status == 'ok':
         try:
@@ -421,7 +550,7 @@ def run_socket(sc):
             detail = {'teardown': repr(e)}
     shutil.rmtree(tmpd, ignore_errors=True)
     return {'status': status, 'ev': ev, 'detail': detail, 'problems': problems, 'server_error': srv_err,
-            'server_thread_alive': st.is_alive()}
+            'server_thread_alive': st.is_alive(), 'stall_fired': bool(stall and stall['fired'])}
 
 
 # ---------------------------------------------------------------------------------------------------------------
@@ -582,7 +711,7 @@ def run_job(job):
         n_exec += 1
         rec = {'id': item['id'], 'kind': sc['kind'], 'p': socket_header(sc) if sc['kind'] == 'socket' else pipe_header(sc) if sc['kind'] == 'pipe' else {},
                'ev': res['ev'], 'sc': sc, 'status': res['status'], 'detail': res['detail'], 'problems': res['problems'],
-               'wall': round(time.monotonic() - t0, 3)}
+               'wall': round(time.monotonic() - t0, 3), 'stall_fired': bool(res.get('stall_fired'))}
         if res['status'] == 'hang':
             hangs.append(rec)
             unrun = items[idx + 1:]  # threads / sockets of the hung scenario are still around: go on in a fresh process
